@@ -52,6 +52,7 @@ type obs struct {
 	replayDetail     string
 	immutableChanged []string
 	unsupplied       []string
+	outOfBounds      []string // stored settings outside the bounds the property's "valid" means for them (independent of the contract's validate)
 	unreadable       []string // accepted global settings whose value the code's own accessor does not return (it falls back to the local yaml)
 	aliased          bool     // two submitted keys are equal up to surrounding white space and letter case
 }
@@ -240,6 +241,13 @@ func (x *world) runUpdate(kind string, c *contract, tag, fn, caller string, kvs 
 				}
 			}
 		} else if o.confChanged {
+			for name, lo := range specMin[tag] {
+				if v, ok := fAfter[name]; ok && strings.HasPrefix(v, "i:") && fBefore[name] != v {
+					if n, err := strconv.ParseInt(v[2:], 10, 64); err == nil && n < lo && !(tag == "vesting" || tag == "storage" && x.fork && kind != "commit") {
+						o.outOfBounds = append(o.outOfBounds, fmt.Sprintf("%s stored=%d minimum=%d", name, n, lo))
+					}
+				}
+			}
 			if err := c.validate(x.w.SCtx()); err != nil {
 				o.validateErr = err.Error()
 			}
@@ -275,6 +283,17 @@ func (x *world) runUpdate(kind string, c *contract, tag, fn, caller string, kvs 
 		return sortedKeyErr(bad)
 	}
 	return "err other " + esc(detail)
+}
+
+// specMin: lower bounds of duration / count settings as the validation messages state them ("individual reset is too short" below
+// one second, "time_unit less than 1s", "invalid min_duration (< 1s)", "min_n is too small" …), in the stored unit (ns for
+// durations). Independent of the contracts' validate functions, so that an edit of those cannot move the bound unnoticed.
+// (vestingsc and storagesc-after-demeter save without validating at all: separate known findings, not re-reported here.)
+var specMin = map[string]map[string]int64{
+	"faucet":  {"individual_reset": 1000000000, "pour_amount": 1},
+	"storage": {"time_unit": 1000000001, "health_check_period": 1, "max_delegates": 1, "max_blobbers_per_allocation": 1, "validators_per_challenge": 1},
+	"miner":   {"min_n": 1, "min_s": 1, "max_delegates": 1},
+	"zcn":     {"health_check_period": 1, "max_delegates": 1, "min_stake": 1, "max_fee": 1},
 }
 
 var viperMu sync.Mutex
@@ -571,6 +590,8 @@ func oracle(ops, outs []string) *corr.Violation {
 			return mk("rejected-call-changed-state", fmt.Sprintf("%q was rejected (%s), yet %d contract nodes changed", o.op, o.class, o.leavesChanged))
 		case len(o.immutableChanged) > 0:
 			return mk("immutable-global-changed", fmt.Sprintf("%q changed global settings marked immutable: %v", o.op, o.immutableChanged))
+		case len(o.outOfBounds) > 0:
+			return mk("invalid-value-stored:"+o.tag+"."+strings.SplitN(o.outOfBounds[0], " ", 2)[0], fmt.Sprintf("%q succeeded and stored a value below the documented bound: %v", o.op, o.outOfBounds))
 		case len(o.unreadable) > 0:
 			return mk("accepted-value-unreadable:"+strings.SplitN(o.unreadable[0], " ", 2)[0], fmt.Sprintf("%q was accepted, but the accessor the code reads the setting with does not return the stored value — it returns the node-local yaml value: %v", o.op, o.unreadable))
 		case len(o.unsupplied) > 0:
@@ -655,6 +676,10 @@ func genValue(r *rand.Rand, kind string) string {
 	case "duration":
 		if bad {
 			return pick(r, "", "5", "1d", "s", "1 s", "2562048h", "x", "1h 30m", "--1s")
+		}
+		if r.Intn(2) == 0 {
+			// the bounds of the validate conditions (1 s, 0) just below / at / just above, in the setting's unit and in finer units
+			return pick(r, "999ms", "500ms", "499ms", "1s", "1000ms", "1001ms", "1500ms", "999999999ns", "1000000000ns", "1000000001ns", "1999ms", "2s", "1ns", "0s", "-1ns", "999us", "1000001us")
 		}
 		return pick(r, "0", "1s", "2s", "90s", "2m", "1h", "1h30m", "100ms", "1000000000ns", "999ms", "-5s", "2562047h", "+3m", "720h", "1001ms")
 	case "boolean":
@@ -905,6 +930,9 @@ func fixed() [][]string {
 		append(pre(false), "taint faucet "+o+" cost.pour=5 pour_amount=x max_pour_amount=y periodic_limit=z"),
 		append(pre(false), "taint vesting "+o+" cost.add=5 max_destinations=7 max_description_length=9 min_duration=1s"),
 		append(pre(false), "update faucet "+o+" cost.pour=5", "update vesting "+o+" cost.STOP=7", "dump faucet", "dump vesting"),
+		// the one-second bound of the faucet's per-user window, in finer units
+		append(pre(false), "update faucet "+o+" individual_reset=999ms", "update faucet "+o+" individual_reset=500ms", "update faucet "+o+" individual_reset=499ms", "dump faucet",
+			"update faucet "+o+" individual_reset=1000ms", "dump faucet", "update faucet "+o+" individual_reset=1999ms global_rest=1999ms", "dump faucet", "update storage "+o+" time_unit=1s", "update storage "+o+" time_unit=1001ms", "commit", "dump storage"),
 		// integer settings at the boundaries of the narrower types: accepted values must be readable by the accessor the code uses
 		append(pre(false), "updateg "+o+" server_chain.block.max_block_size=3000000000", "dumpg", "inforce server_chain.block.max_block_size "+escOrEmpty(viperRaw("server_chain.block.max_block_size", "int32")),
 			"updateg "+o+" server_chain.block.min_block_size=2147483648", "updateg "+o+" server_chain.block.min_block_size=2147483647", "inforce server_chain.block.min_block_size "+escOrEmpty(viperRaw("server_chain.block.min_block_size", "int32")),
